@@ -294,7 +294,8 @@ pub fn cfg_strategy() -> impl Strategy<Value = CfgSpec> {
         // borrowing
         prop_oneof![2 => Just(2_820_000_000_000u128), 1 => Just(0u128), 1 => 0u128..=1_000_000_000_000_000],
         prop_oneof![Just(true), Just(false)],
-        prop_oneof![2 => Just(bp(7500)), 2 => Just(0u128), 1 => 0..=UNIT],
+        // kink model: off, typical optimum, arbitrary, and an optimum of exactly / above 100 % (no kink inside the usable range)
+        prop_oneof![4 => Just(bp(7500)), 4 => Just(0u128), 2 => 0..=UNIT, 1 => Just(UNIT), 1 => (UNIT + 1)..=(2 * UNIT)],
     );
     let d = (
         prop_oneof![3 => Just((1_000_000_000u128 * 1_000_000_000, 1_000_000_000_000u128 * 1_000_000)),
